@@ -32,10 +32,10 @@ func vhC04Documented(v vhOpView) string {
 func vh_C04_front_documented_equals_enforced_Q() {
 	engine := symxChoice("engine", 5)
 	ctrlChoice := symxChoice("controller", 3)
-	methodChoice := symxChoice("method", 4)
+	methodChoice := symxChoice("method", 5)
 	hasDefault := symxBool("default")
 	ctrlText := []string{"", "// @Security(s1, { scopes: [\"a\"] })\n", "// @Security(s2)\n"}[ctrlChoice]
-	methodText := []string{"", "// @Security(s1, { scopes: [\"b\", \"c\"] })\n", "// @Security(s1, { scopes: [\"b\"] })\n// @Security(s2)\n", "// @Security(s3, { scopes: [] })\n"}[methodChoice]
+	methodText := []string{"", "// @Security(s1, { scopes: [\"b\", \"c\"] })\n", "// @Security(s1, { scopes: [\"b\"] })\n// @Security(s2)\n", "// @Security(s3, { scopes: [] })\n", "// @Security(s2, { scopes: [\"z\"] })\n// @Security(s1)\n"}[methodChoice]
 	cfg := vhFrontConfig()
 	for _, name := range []string{"s1", "s2", "s3"} {
 		cfg.OpenAPIGeneratorConfig.SecuritySchemes = append(cfg.OpenAPIGeneratorConfig.SecuritySchemes, definitions.SecuritySchemeConfig{
